@@ -35,6 +35,7 @@ type slScript struct {
 	Procs map[string][][]interface{} `json:"procs"`
 	Sched []string                   `json:"sched"`
 	Seed  int64                      `json:"seed"`
+	Wide  bool                       `json:"wide"` // free-running only: no warm-up, every insert draws its level (biased tall), levels grow concurrently
 }
 
 var slLabels = map[int]string{
@@ -226,7 +227,7 @@ func slScenario(t *tr.W, sc *slScript, free bool) string {
 	cfg.SetItemSizeFunc(func(unsafe.Pointer) int { return 8 })
 	r.sl = skiplist.NewWithConfig(cfg)
 	// raise the maximum level to Top, as a warmed-up skiplist has it
-	for r.sl.VerifLevel() < sc.Top {
+	for !sc.Wide && r.sl.VerifLevel() < sc.Top {
 		calls := 0
 		r.sl.NewLevel(func() float32 {
 			calls++
@@ -371,9 +372,13 @@ func slScenario(t *tr.W, sc *slScript, free bool) string {
 					t.Emit(tr.Ev{"e": "Call", "p": name, "op": "ins", "k": arg, "n": id, "h": h})
 					var n *skiplist.Node
 					var ok bool
-					if free && id%3 == 0 {
+					if free && (id%3 == 0 || sc.Wide) {
 						// random level through NewLevel (may raise the maximum level concurrently)
-						n, ok = r.sl.Insert2(itm, skiplist.CompareInt, nil, buf, rand.Float32, &r.sl.Stats)
+						rf := rand.Float32
+						if sc.Wide {
+							rf = func() float32 { return rand.Float32() * 0.5 } // towers twice as likely to grow: level 8+ with a few hundred nodes
+						}
+						n, ok = r.sl.Insert2(itm, skiplist.CompareInt, nil, buf, rf, &r.sl.Stats)
 						if ok {
 							r.mu.Lock()
 							r.lvls[id] = n.Level()
@@ -445,6 +450,7 @@ func slMain(args []string) int {
 	free := fs.Bool("free", false, "")
 	big := fs.Bool("big", false, "")
 	topFlag := fs.Int("top", 1, "maximum level of every random scenario (the trace cfg's Top)")
+	wide := fs.Bool("wide", false, "free-running scenarios with hundreds of keys, 3-8 goroutines, organically growing towers")
 	iters := fs.Int("iters", 0, "number of iterator goroutines per random scenario")
 	fs.Parse(args)
 	t, err := tr.Create(*out)
@@ -484,6 +490,10 @@ func slMain(args []string) int {
 			nops := 2 + rnd.Intn(2)
 			if *big {
 				np, nk, nops = 2+rnd.Intn(5), 2+rnd.Intn(5), 3+rnd.Intn(6)
+			}
+			if *wide {
+				sc.Wide = true
+				np, nk, nops = 3+rnd.Intn(6), 50+rnd.Intn(250), 20+rnd.Intn(40)
 			}
 			nins := 0
 			for p := 1; p <= np; p++ {
